@@ -180,7 +180,7 @@ PROPS["C16"] = dict(
 )
 
 PROPS["C07"] = dict(
-    suites=["c07"],
+    suites=["c07", "c04e"],
     lean_modules=["ServlinVerif.Props.C07", "ServlinVerif.Props.C07Prefix"],
     audit="Audit/C07.lean",
     rule="copy_chunked_async(scripted reader, scripted writer): one chunk of every length in 1..300, every power of 16 +-2, 65527/65528 and 300 "
@@ -188,7 +188,7 @@ PROPS["C07"] = dict(
          "150 KB (1 MiB) with random/adversarial piece sizes, short writes, Pending injection, reader error instead of EOF on every third; "
          "error/EOF at every prefix of a 40-byte stream. Non-trivial = non-empty stream.",
     nontrivial=lambda tag, args, obs: args[0] != "",
-    klass=lambda tag, args, obs: "c07:%s:%s" % (args[2], obs.split(" ")[-1].split(":")[0]),
+    klass=lambda tag, args, obs: "c04e:event-stream-in-sequence:" + args[2] if tag == "c04" else "c07:%s:%s" % (args[2], obs.split(" ")[-1].split(":")[0]),
     explanation="copy_chunked_async modelled as per-read chunk encoding (4 nibbles, CRLF, data, CRLF, all leading '0' trimmed) + terminator; "
                 "C07_decode_encode proves the independent RFC 7230 4.1 decoder recovers the source for every piece list with sizes "
                 "1..65528; C07_error_truncates proves a source error yields an output the decoder calls incomplete.",
@@ -486,7 +486,7 @@ PROPS["C10"] = dict(
 )
 
 PROPS["C11"] = dict(
-    suites=["c11", "c11c", "c07"],
+    suites=["c11", "c11c", "c07", "c04e"],
     lean_modules=["ServlinVerif.Props.C11", "ServlinVerif.Props.C07", "ServlinVerif.Props.C11Format"],
     audit="Audit/C11.lean",
     rule="c11c: the checked constructor Event::custom on 19 hand-picked types x 3 data and on every type of up to 4 (5) symbols over {a, SP, CR, LF, ':', e-acute} "
@@ -498,7 +498,7 @@ PROPS["C11"] = dict(
          "random programs of 3..14 steps; multi-threaded stress with 1..4 sender threads x {10, 200} events. Non-trivial = at least one event "
          "was accepted.",
     nontrivial=lambda tag, args, obs: "wire= " not in obs,
-    klass=lambda tag, args, obs: (tag + ":" + obs[:3]) if tag == "c11c" else ("c07:chunk-encoder" if tag == "c07" else tag + ":done=" + obs.rsplit("done=", 1)[-1]),
+    klass=lambda tag, args, obs: (tag + ":" + obs[:3]) if tag == "c11c" else ("c07:chunk-encoder" if tag == "c07" else "c04e:event-stream-in-sequence:" + args[2] if tag == "c04" else tag + ":done=" + obs.rsplit("done=", 1)[-1]),
     explanation="Channel + encoder modelled as a transition system over {send, clone, disconnect, drop, poll}; C11_invariant (induction over "
                 "arbitrary op sequences): delivered ++ queued = accepted in order, queue <= 50, wire = one chunk per delivered event (+ "
                 "terminator iff ended), ended only when every sender is gone; C11_never_blocks; C11_ends_when_all_gone. Format: the "
